@@ -7,10 +7,11 @@ mkdir -p build/bin build/replay build/run evidence
 gcc -c -O1 -I/repo/smartcontract/service/wasmvm stub/wasmjit_stub.c -o build/wasmjit_stub.o
 ar rcs build/libwasmjitstub.a build/wasmjit_stub.o
 export CGO_LDFLAGS="-L$(pwd)/build -lwasmjitstub"
-cp /repo/go.sum harness/go.sum
+python3 tools/gengomod.py /repo harness/go.mod
+mkdir -p build/gomod/repo && python3 tools/gengomod.py /repo build/gomod/repo/go.mod
 python3 tools/genmain.py
 (cd lean/OntVerif && lake build)
 # warm the Go build cache: every harness binary once (checks rebuild them from /repo's working tree anyway)
 cd harness
-ls cmd | xargs -P 6 -I{} sh -c 'if [ "{}" = factgen ]; then go build -o ../build/bin/factgen ./cmd/factgen; else go build -tags verif -o ../build/bin/hx-{} ./cmd/{}; fi'
+ls cmd | xargs -P 6 -I{} sh -c 'if [ "{}" = factgen ]; then go build -o ../build/bin/factgen ./cmd/factgen; else go build -modfile=../build/gomod/repo/go.mod -tags verif -o ../build/bin/hx-{} ./cmd/{}; fi'
 echo "setup done"
